@@ -40,9 +40,10 @@ type srHere struct {
 	fn   string
 }
 
-//go:noinline
 // srHereNow describes the source line FOLLOWING its call (gofmt puts every
 // statement on its own line: the logging call is the next statement).
+//
+//go:noinline
 func srHereNow() srHere {
 	pc, file, line, _ := runtime.Caller(1)
 	return srHere{file, line + 1, runtime.FuncForPC(pc).Name()}
